@@ -7,7 +7,7 @@ from .spec import build
 class Run:
     def __init__(self):
         self.built = None; self.rec = None; self.op = None; self.res = None; self.out = None
-        self.error = None; self.stage = None
+        self.error = None; self.stage = None; self.prices_changed = []
 
     @property
     def ok(self):
@@ -36,9 +36,13 @@ def run_portfolio(spec, split=None, solver=None, do_optimize=True, do_extract=Tr
                 # the portfolio goes through its JSON form before it is used (documented way of storing / exchanging portfolios)
                 import eaopack.serialization as _ser
                 r.stage = 'json'
+                b.portfolio.set_timegrid(b.timegrid)          # the portfolio is stored together with its grid (what run_from_json relies on)
                 b.portfolio = _ser.load_from_json(_ser.to_json(b.portfolio))
                 b.assets = {a_.name: a_ for a_ in b.portfolio.assets}
+                if getattr(b.portfolio, 'timegrid', None) is not None:
+                    b.timegrid = b.portfolio.timegrid         # ... and used on the grid it carries
             pr = b.prices if prices is None else prices
+            pr_before = {k_: np.array(v_, copy=True) for k_, v_ in pr.items()} if isinstance(pr, dict) else None
             r.stage = 'setup'
             kw = {}
             if fix_time_window is not None:
@@ -66,6 +70,8 @@ def run_portfolio(spec, split=None, solver=None, do_optimize=True, do_extract=Tr
                 r.op = b.portfolio.setup_split_optim_problem(pr, b.timegrid, interval_size=split, **kw)
             else:
                 r.op = b.portfolio.setup_optim_problem(pr, b.timegrid, **kw)
+            if pr_before is not None:
+                r.prices_changed = [k_ for k_, v_ in pr_before.items() if not np.array_equal(np.asarray(pr[k_]), v_, equal_nan=True)]
             if do_optimize:
                 r.stage = 'optimize'
                 r.res = r.op.optimize(solver=solver) if solver else r.op.optimize()
